@@ -89,7 +89,7 @@ func (s *DHCPSys) Name() string {
 }
 func (s *DHCPSys) Config() map[string]any {
 	if s.Nexus { // own implementation name: own violation groups, own non-vacuity requirements
-		return map[string]any{"impl": "dhcp.Server+HTTPAllocator", "nsess": len(s.Kinds), "nunits": s.NUnits, "kinds": s.Kinds, "nexus": true}
+		return map[string]any{"impl": "dhcp.Server+nexus", "nsess": len(s.Kinds), "nunits": s.NUnits, "kinds": s.Kinds, "nexus": true}
 	}
 	return map[string]any{"impl": "dhcp.Server", "nsess": len(s.Kinds), "nunits": s.NUnits, "kinds": s.Kinds, "nexus": s.Nexus}
 }
